@@ -671,6 +671,14 @@ def install(prog):
         ty = generic_args(c) or c
         if 'String' in c: return RString()
         raise Unsupported('unwrap_or_default ' + c)
+    @M('Result::unwrap_or_else')
+    def _(I, a, c):
+        v = I.deref(a[0])
+        return v.f[0] if v.tag == 'Ok' else I.call_closure(a[1], [v.f[0]])
+    @M('Option::unwrap_or_else')
+    def _(I, a, c):
+        v = I.deref(a[0])
+        return v.f[0] if v.tag == 'Some' else I.call_closure(a[1], [])
     @M('Option::map', 'Result::map')
     def _(I, a, c):
         v = I.deref(a[0])
@@ -985,6 +993,62 @@ def install(prog):
     @M('Range::contains')
     def _(I, a, c): raise Unsupported('Range::contains')
 
+    def wrap_op(op):
+        def f(I, a, c):
+            x = I.deref(a[0]).f[0]; y = I.deref(a[1]).f[0]
+            if not is_sym(x) and not is_sym(y):
+                if op == 'add': r = x + y
+                elif op == 'sub': r = x - y
+                elif op == 'mul': r = x * y
+                else:
+                    if y == 0: I.panic('attempt to divide by zero')
+                    q = abs(x) // abs(y); r = -q if (x < 0) != (y < 0) else q
+                return Agg('Wrapping', [wrap(r, 64, True)])
+            X = x if is_sym(x) else z3.BitVecVal(x, 64); Y = y if is_sym(y) else z3.BitVecVal(y, 64)
+            if op == 'add': r = X + Y
+            elif op == 'sub': r = X - Y
+            elif op == 'mul': r = X * Y
+            else:
+                if I.branch(Y == 0): I.panic('attempt to divide by zero')
+                r = X / Y          # bvsdiv: MIN / -1 wraps to MIN like wrapping_div
+            return Agg('Wrapping', [r])
+        return f
+    prog.models['<Wrapping as Add>::add'] = wrap_op('add'); prog.models['<Wrapping as Sub>::sub'] = wrap_op('sub')
+    prog.models['<Wrapping as Mul>::mul'] = wrap_op('mul'); prog.models['<Wrapping as Div>::div'] = wrap_op('div')
+    @M('<impl i64>::pow', '<impl i32>::pow', '<impl u32>::pow', '<impl u64>::pow', '<impl usize>::pow')
+    def _(I, a, c):
+        import re as _re
+        ty = _re.search(r'impl (\w+)', c).group(1); bits, sg = INT_TYPES[ty]
+        base = I.deref(a[0]); e = I.concretize(I.deref(a[1]), limit=80)
+        if not is_sym(base):
+            r = base ** e; w = wrap(r, bits, sg)
+            if w != r and I.profile == 'dev': I.panic('attempt to multiply with overflow')
+            return w
+        acc = z3.BitVecVal(1, bits)
+        for _ in range(e):
+            ok = z3.And(z3.BVMulNoOverflow(acc, base, sg), z3.BVMulNoUnderflow(acc, base)) if sg else z3.BVMulNoOverflow(acc, base, False)
+            if I.profile == 'dev' and not I.branch(ok): I.panic('attempt to multiply with overflow')
+            acc = acc * base
+        return acc
+    @M('<impl i64>::wrapping_pow', '<impl i32>::wrapping_pow', '<impl u64>::wrapping_pow', '<impl u32>::wrapping_pow')
+    def _(I, a, c):
+        import re as _re
+        ty = _re.search(r'impl (\w+)', c).group(1); bits, sg = INT_TYPES[ty]
+        base = I.deref(a[0]); e = I.deref(a[1])
+        if is_sym(e): e = I.concretize(e, limit=80)
+        e &= 0xFFFFFFFF
+        if not is_sym(base): return wrap(pow(base, e, 1 << bits), bits, sg)
+        acc = z3.BitVecVal(1, bits); b_ = base
+        while e:
+            if e & 1: acc = acc * b_
+            b_ = b_ * b_; e >>= 1
+        return acc
+    @M('<impl f64>::powf')
+    def _(I, a, c):
+        x = float(I.deref(a[0])); y = float(I.deref(a[1]))
+        try: return float(x) ** y if not (x < 0 and y != int(y)) else float('nan')
+        except OverflowError: return float('inf')
+        except ZeroDivisionError: return float('inf')
     # ---------------- lazy_static / Mutex ---------------------------------------------------------
     def lazy_deref(I, a, c):
         import re as _re
@@ -997,9 +1061,13 @@ def install(prog):
             if 'HashMap' in ret: inner = RMap('map')
             elif 'HashSet' in ret: inner = RMap('set')
             else:
-                h = I.prog.models.get('@lazy:' + name)
-                if h is None: raise Unsupported('lazy static ' + name + ': ' + ret)
-                I.globals[key] = [h(I)]
+                # any other lazy static: run its initialiser from the MIR
+                init = None
+                for nm2, r2 in I.prog.module.raw.items():
+                    if r2[0] == 'fn' and 'deref::__static_ref_initialize' in nm2 and r2[2].replace('pest::pratt_parser::', '').replace(' ', '') == ret.lstrip('&').replace(' ', ''):
+                        init = nm2; break
+                if init is None: raise Unsupported('lazy static ' + name + ': ' + ret)
+                I.globals[key] = [I.exec_fn(I.prog.module.fn(init), [])]
                 return Ref(I.globals[key], 0)
             I.globals[key] = [Agg('Mutex', [inner]) if 'Mutex' in ret else inner]
         return Ref(I.globals[key], 0)
@@ -1020,6 +1088,8 @@ def install(prog):
     models_os.install(prog)
     import osmodel
     osmodel.install(prog)
+    import pestmodel
+    pestmodel.install(prog)
 
 def key_less(I, x, y):
     x = I.deref(x); y = I.deref(y)
@@ -1105,7 +1175,9 @@ def generic_eq(I, x, y):
 def parse_number(I, s, ty):
     """str::parse::<int>() after core::num::from_str_radix: optional sign, decimal digits, overflow -> Err"""
     if ty in ('f64', 'f32'):
-        if any(is_sym(c) for c in s): raise Unsupported('parse::<f64> of symbolic text')
+        if any(is_sym(c) for c in s):
+            # floats are not reasoned about symbolically: fork over the (few) feasible characters
+            s = tuple(I.concretize(c, limit=16) if is_sym(c) else c for c in s)
         txt = ''.join(chr(c) for c in s)
         if re.fullmatch(r'[+-]?(\d+\.?\d*([eE][+-]?\d+)?|\.\d+([eE][+-]?\d+)?|inf|infinity|nan)', txt, re.I):
             return OK(float(txt))
